@@ -38,6 +38,11 @@ type WCase struct {
 	Cancel     int          `json:"cancel"`
 	Tx         bool         `json:"tx"`
 	Entry      string       `json:"entry"`
+	// FaultKind: what the injected failure returns: "" a plain driver error, "deadline"/"canceled" a context error
+	// (the caller's context is still alive), "wrapped" a driver error wrapping one.  Settle: see MemDB.Settle.
+	// Both are invisible to the model (a failure is a failure, a cancellation a cancellation).
+	FaultKind string `json:"fault_kind,omitempty"`
+	Settle    bool   `json:"settle,omitempty"`
 	// observed
 	Ok    bool         `json:"ok"`
 	Msg   string       `json:"msg,omitempty"`
@@ -145,6 +150,15 @@ func RunW(w *WCase) {
 	mem := &MemDB{Quote: quoteFor(string(w.Dialect)), Committed: tablesToMap(w.Store), FailAt: w.Fault, CancelAt: w.Cancel}
 	if w.FaultNext {
 		mem.FailAt, mem.NextFailAt = 0, w.Fault
+	}
+	mem.Settle = w.Settle
+	switch w.FaultKind {
+	case "deadline":
+		mem.FaultErr = context.DeadlineExceeded
+	case "canceled":
+		mem.FaultErr = context.Canceled
+	case "wrapped":
+		mem.FaultErr = fmt.Errorf("driver: statement timeout: %w", context.DeadlineExceeded)
 	}
 	db := OpenMem(mem)
 	defer CloseMem(db)
